@@ -328,25 +328,6 @@ known.register('C01-eval-masked-scalar', lambda spec, f: (
     f.where == 'AttributeError@core/_variables.py:__new__' and
     f.klass.startswith('eval:') and 'scalarvar' in _ctx(f)))
 
-known.register('C01-ioapi-getvarlist-redim', lambda spec, f: (
-    f.clause == 'malformed' and 'baddims=VAR ' in f.detail and
-    f.klass.endswith('/live') and ' live file ' in f.detail and
-    'cls=ioapi' in _ctx(f) and 'degraded' not in _ctx(f)))
-
-def _reduced_tstep(journal):
-    for st_ in journal.get('steps', []):
-        if st_.get('op') == 'apply' and not st_.get('ood') and any(
-                fn[0] == 'TSTEP' for fn in st_['args']['funcs']):
-            return True
-    return False
-
-
-known.register('C01-ioapi-tflag-reduced', lambda spec, f: (
-    f.clause == 'in-domain-raised' and 'cls=ioapi' in _ctx(f) and
-    f.where.endswith('@core/_files.py:getTimes') and
-    f.where.split('@')[0] in ('ValueError', 'OverflowError') and
-    _reduced_tstep(spec)))
-
 known.register('C01-ioapi-slice-rowcol', lambda spec, f: (
     f.clause == 'malformed' and f.klass == 'slice:ioapi/degraded' and
     'degraded' in _ctx(f) and 'uses dimensions' in f.detail and
